@@ -170,6 +170,7 @@ type wenv struct {
 	portBase int
 	portNext int
 	execs    int
+	dirty    int // executions since the last sweep of this worker's trace files
 }
 
 func (e *wenv) port() int {
